@@ -755,7 +755,10 @@ func (hs *clientHandshakeState) doFullHandshake() error {
 		//
 		// See https://mitls.org/pages/attacks/3SHAKE for the
 		// motivation behind this requirement.
-		if !bytes.Equal(c.peerCertificates[0].Raw, certMsg.certificates[0]) {
+		// [uTLS] len == 0: the connection resumed a session forged without
+		// certificates (MakeClientSessionState(..., nil, nil)); there is no earlier
+		// trust decision a renegotiation could rely on.
+		if len(c.peerCertificates) == 0 || !bytes.Equal(c.peerCertificates[0].Raw, certMsg.certificates[0]) {
 			c.sendAlert(alertBadCertificate)
 			return errors.New("tls: server's identity changed during renegotiation")
 		}
